@@ -397,6 +397,9 @@ def _pure_arg(n):
     return False
 
 
+_EXPANSIONS = [0]
+
+
 def expand_member_helpers(facts, fn, depth=3, _stack=()):
     """A copy of the function record in which every statement-level call of a member function of the same class
     (one definition, body available, no `return` other than a trailing one, not recursive) is replaced by the callee's
@@ -474,6 +477,14 @@ def expand_member_helpers(facts, fn, depth=3, _stack=()):
                             x.update(keep)
                             x["b"], x["e"] = src.get("b"), src.get("e")      # source text of the caller's variable (names are compared through text in places)
                             x["l"] = src.get("l")
+                    # the callee's own locals become distinct variables at every call site (two splices of one helper must not share
+                    # a loop counter: per-variable facts such as an index's domain would be merged across the two calls)
+                    _EXPANSIONS[0] += 1
+                    ren = {v_["did"]: "%s@x%d" % (v_["did"], _EXPANSIONS[0]) for v_ in walk(gb) if v_.get("k") == "VarDecl" and v_.get("did") is not None and v_["did"] not in pd}
+                    if ren:
+                        for x in walk(gb):
+                            if x.get("k") in ("VarDecl", "DeclRefExpr") and x.get("did") in ren:
+                                x["did"] = ren[x["did"]]
                     ch.extend(bind + kids(gb))          # spliced in place of the call statement
                     changed[0] = True
                     continue
